@@ -1,6 +1,7 @@
 package satisfaction_levels
 
 import (
+	"fmt"
 	"github.com/Azbesciak/RealDecisionMaker/lib/model"
 	"github.com/Azbesciak/RealDecisionMaker/lib/utils"
 )
@@ -50,7 +51,12 @@ func (s *IdealCoefficientSatisfactionLevels) Next() model.Weights {
 			weights[c.Id] = valRange.Max - delta
 		}
 	}
-	s.currentValue = s.manager.UpdateValue(s.currentValue, s.Coefficient)
+	nextValue := s.manager.UpdateValue(s.currentValue, s.Coefficient)
+	if nextValue == s.currentValue && s.manager.HasNext(s) {
+		// the coefficient is too small to change the level in floating point: the series would never end
+		panic(fmt.Errorf("satisfaction coefficient %v does not change the satisfaction level %v", s.Coefficient, s.currentValue))
+	}
+	s.currentValue = nextValue
 	return weights
 }
 
